@@ -167,7 +167,9 @@ func (s *server) SyncPart(stream clusterv1.ChunkedSyncService_SyncPartServer) er
 
 		sessionID = req.SessionId
 
-		if req.GetMetadata() != nil {
+		// A repeated first chunk of the session in progress must not restart it: restarting would
+		// finish (install) the partially received part. It is handled as a duplicate chunk below.
+		if req.GetMetadata() != nil && (currentSession == nil || currentSession.sessionID != sessionID) {
 			currentSession = s.startOrSwitchSession(sessionID, req, currentSession)
 		}
 
